@@ -70,6 +70,8 @@ type vf03Scen struct {
 	Pass   string `json:"pass"`
 	IP     string `json:"ip"`
 	Reload string `json:"reload"`
+	Proxy  string `json:"proxy"` // HTTP protocols: "trusted" (the peer 127.0.0.1 is in the trusted-proxy list: the client IP is
+	// the forwarded address) or "none" (empty list: the client IP is the TCP peer, the forwarded address is forged)
 
 	attachedSeen *bool
 }
@@ -183,7 +185,11 @@ func vf03FreeUDPPort(t testing.TB) int {
 	return c.LocalAddr().(*net.UDPAddr).Port
 }
 
-func vf03StartCore(t testing.TB, users []vf03User) *vf03Env {
+func vf03StartCore(t testing.TB, users []vf03User, trusted bool) *vf03Env {
+	proxies := "[]"
+	if trusted {
+		proxies = "[127.0.0.1]"
+	}
 	var p *Core
 	var ports []int
 	for attempt := 0; attempt < 5; attempt++ {
@@ -201,9 +207,9 @@ func vf03StartCore(t testing.TB, users []vf03User) *vf03Env {
 		fmt.Fprintf(&b, "api: yes\napiAddress: 127.0.0.1:%d\n", ports[0])
 		fmt.Fprintf(&b, "rtsp: yes\nrtspTransports: [tcp]\nrtspEncryption: \"no\"\nrtspAddress: 127.0.0.1:%d\n", ports[1])
 		fmt.Fprintf(&b, "rtmp: yes\nrtmpEncryption: \"no\"\nrtmpAddress: 127.0.0.1:%d\n", ports[2])
-		fmt.Fprintf(&b, "hls: yes\nhlsAddress: 127.0.0.1:%d\nhlsTrustedProxies: [127.0.0.1]\nhlsVariant: mpegts\n", ports[3])
+		fmt.Fprintf(&b, "hls: yes\nhlsAddress: 127.0.0.1:%d\nhlsTrustedProxies: %s\nhlsVariant: mpegts\n", ports[3], proxies)
 		fmt.Fprintf(&b, "srt: yes\nsrtAddress: 127.0.0.1:%d\n", ports[6])
-		fmt.Fprintf(&b, "webrtc: yes\nwebrtcAddress: 127.0.0.1:%d\nwebrtcTrustedProxies: [127.0.0.1]\n", ports[4])
+		fmt.Fprintf(&b, "webrtc: yes\nwebrtcAddress: 127.0.0.1:%d\nwebrtcTrustedProxies: %s\n", ports[4], proxies)
 		fmt.Fprintf(&b, "webrtcLocalUDPAddress: :%d\nwebrtcLocalTCPAddress: ''\nwebrtcICEServers2: []\n", ports[7])
 		fmt.Fprintf(&b, "moq: yes\nmoqHTTP2Address: 127.0.0.1:%d\nmoqHTTP3Address: 127.0.0.1:%d\nmoqQUICAddress: 127.0.0.1:%d\n",
 			ports[5], ports[8], ports[9])
@@ -361,6 +367,15 @@ func (e *vf03Env) attached(s *vf03Scen, wait time.Duration) bool {
 		}
 		time.Sleep(50 * time.Millisecond)
 	}
+}
+
+// forwarded is the value of the forwarding headers: the client's address when the peer is the trusted proxy,
+// otherwise a FORGED one (the single host the IP-restricted user is allowed from).
+func (s *vf03Scen) forwarded() string {
+	if s.Proxy == "none" {
+		return "10.0.0.5"
+	}
+	return s.IP
 }
 
 func vf03UserInfo(s *vf03Scen) string {
@@ -572,7 +587,10 @@ func (e *vf03Env) play(s *vf03Scen) (note string) {
 			if s.User != "" || s.Pass != "" {
 				req.SetBasicAuth(s.User, s.Pass)
 			}
-			req.Header.Set("X-Forwarded-For", s.IP)
+			req.Header.Set("X-Forwarded-For", s.forwarded())
+			if s.Proxy == "none" {
+				req.Header.Set("X-Real-IP", s.forwarded())
+			}
 			res, err := hc.Do(req)
 			if err != nil {
 				done <- "get: " + err.Error()
@@ -614,7 +632,10 @@ func (h *vf03Headers) RoundTrip(req *http.Request) (*http.Response, error) {
 		}, nil
 	}
 	req = req.Clone(req.Context())
-	req.Header.Set("X-Forwarded-For", h.s.IP)
+	req.Header.Set("X-Forwarded-For", h.s.forwarded())
+	if h.s.Proxy == "none" {
+		req.Header.Set("X-Real-IP", h.s.forwarded())
+	}
 	if h.s.User != "" || h.s.Pass != "" {
 		switch h.s.Place {
 		case "basic":
@@ -834,8 +855,15 @@ func TestVerif_C03_Scenarios(t *testing.T) {
 	if users == nil {
 		t.Fatal("vf03: no setup line")
 	}
-	env := vf03StartCore(t, users)
-	defer env.p.Close()
+	envs := map[string]*vf03Env{"trusted": vf03StartCore(t, users, true)}
+	defer envs["trusted"].p.Close()
+	for _, s := range scens {
+		if s.Proxy == "none" && envs["none"] == nil {
+			// a second Core whose HTTP listeners trust no proxy
+			envs["none"] = vf03StartCore(t, users, false)
+			defer envs["none"].p.Close()
+		}
+	}
 
 	par := verifrt.Param("PAR", 48)
 	sem := make(chan struct{}, par)
@@ -846,6 +874,10 @@ func TestVerif_C03_Scenarios(t *testing.T) {
 		go func(s *vf03Scen) {
 			defer wg.Done()
 			defer func() { <-sem }()
+			env := envs["trusted"]
+			if s.Proxy == "none" {
+				env = envs["none"]
+			}
 			note := env.play(s)
 			att := false
 			if s.attachedSeen != nil {
@@ -854,7 +886,7 @@ func TestVerif_C03_Scenarios(t *testing.T) {
 			// the log is read after the attachment was looked up: everything that led to it is in it
 			out.Emit(map[string]any{
 				"id": s.ID, "proto": s.Proto, "mode": s.Mode, "place": s.Place, "action": s.Action, "name": s.Name, "cls": s.Cls, "cred": s.Cred,
-				"user": s.User, "pass": s.Pass, "ip": s.IP, "reload": s.Reload,
+				"user": s.User, "pass": s.Pass, "ip": s.IP, "reload": s.Reload, "proxy": s.Proxy,
 				"events": env.rec.eventsOf(s.Name), "attached": att, "note": note,
 			})
 		}(s)
